@@ -71,7 +71,13 @@ def ev(term, asg):
     if isinstance(term, Tup):
         return tuple(ev(i, asg) for i in term.items)
     if isinstance(term, Obj):
-        return (term.cls, tuple(sorted((k, ev(v, asg)) for k, v in term.fields.items() if is_num(v))))
+        out = []
+        for k, v in term.fields.items():
+            try:
+                out.append((k, ev(v, asg)))
+            except ValueError:
+                continue          # a field that is not an order-only value (e.g. an opaque object)
+        return (term.cls, tuple(sorted(out, key=lambda kv: kv[0])))
     if isinstance(term, App) and term.name == 'slice':
         return ('slice',) + tuple(ev(a, asg) for a in term.args)
     raise ValueError(f'cannot evaluate {type(term).__name__} {term!r}')
